@@ -16,7 +16,7 @@ REQUIRED_MONITORS = {"refused_upload": 10, "request_body": 200, "response_body":
 
 LENGTHS = [0, 1, 15, 16, 17, 31, 32, 33, 63, 64, 65, 127, 128, 129, 255, 256, 257, 511, 512, 513, 1023, 1024, 1025, 1124, 1125, 2047, 2048, 2049, 5000, 20000]
 ETAG_MIS = ("etag-changes", "etag-vanishes", "etag-appears")
-MISBEHAVIOURS = ["b1-wrong-num", "b1-wrong-num-final", "b1-more-on-final", "b1-continue-on-final", "b2-wrong-num", "b2-short-with-more", "b2-repeat-prev", "b2-restart-0", "etag-changes", "etag-vanishes", "etag-appears"]
+MISBEHAVIOURS = ["b1-wrong-num", "b1-wrong-num-final", "b1-more-on-final", "b1-continue-on-final", "b2-wrong-num", "b2-short-with-more", "b2-repeat-prev", "b2-restart-0", "b1-observe-in-continue", "etag-changes", "etag-vanishes", "etag-appears"]
 
 
 def plan(tier, seed):
@@ -191,7 +191,17 @@ def judge(p, box, req_body, rep_body, res, rep, case):
             rep.monitor("negotiation")
     # ---- outcome ----
     kind = out[0]
-    if p["mis"]:
+    if p["mis"] == "b1-observe-in-continue":
+        # an Observe option on the 2.31 acknowledgements is out of place but breaks no sequencing rule: the transfer
+        # either goes through intact or fails with a library error
+        if any(s_["b1"] is not None and s_["b1"][1] for s_ in seen):
+            rep.monitor("misbehaving_server")
+        if kind == "exception":
+            if not isinstance(out[1], error.Error):
+                rep.violation("out-of-place-option-wrong-exception/" + type(out[1]).__name__, "an Observe option on a 2.31 Continue made the request fail with an exception outside the library's error hierarchy", wit(), case)
+        else:
+            judge_conforming(p, srv, out, req_body, rep_body, lossy, rep, case, wit)
+    elif p["mis"]:
         # did the misbehaviour actually manifest on the wire?
         manifested = misbehaviour_manifested(p, srv, req_body, rep_body)
         if manifested:
